@@ -139,6 +139,9 @@ func run(sc *scenario, scratch string) ([]map[string]any, error) {
 	if sc.Eager == "reopen" {
 		return runReopen(sc, scratch)
 	}
+	if sc.Eager == "expire" {
+		return runExpire(sc, scratch)
+	}
 	if sc.Eager != "" {
 		return runEager(sc, scratch)
 	}
